@@ -441,13 +441,11 @@ macro_rules! trap_attrs {
 }
 use crate::verif_h::capture;
 
-trap_attrs! {
-#[kani::stub(std::process::exit, crate::verif_h::exits::never)]
-fn c03_trap_getc_in_out() {
+// One harness per trap vector: the vector is a constant of the harness (bits 11:8 of the word stay symbolic),
+// so symbolic execution follows one arm of trap()'s match instead of all of them (all arms: >20 min, measured).
+fn getc_in_out_body(which: u8) {
     let mut s = any_state();
     let q = any_input(2);
-    let which: u8 = kani::any();
-    kani::assume(which < 3);
     let vect: u16 = match which { 0 => 0x20, 1 => 0x21, _ => 0x23 };
     let hi: u16 = kani::any();
     let instr = 0xF000 | (hi & 0x0F00) | vect; // bits 11:8 are ignored by TRAP
@@ -470,53 +468,77 @@ fn c03_trap_getc_in_out() {
         }
     }
     assert_effect(&s, &e, probe, pre_probe);
-    kani::cover!(which == 0 && q[0] == 0xFFFD);
-    kani::cover!(which == 1 && pre.r[0] == 0x1FF);
-    kani::cover!(which == 2);
-}}
+    kani::cover!(q[0] == 0xFFFD || which == 1);
+    kani::cover!(pre.r[0] == 0x1FF);
+}
+trap_attrs! {
+#[kani::stub(std::process::exit, crate::verif_h::exits::never)]
+fn c03_trap_getc() { getc_in_out_body(0); }}
+trap_attrs! {
+#[kani::stub(std::process::exit, crate::verif_h::exits::never)]
+fn c03_trap_out() { getc_in_out_body(1); }}
+trap_attrs! {
+#[kani::stub(std::process::exit, crate::verif_h::exits::never)]
+fn c03_trap_in() { getc_in_out_body(2); }}
 
 /// GETC / IN at end of input: exit(1), nothing else
 trap_attrs! {
 #[kani::stub(std::process::exit, crate::verif_h::exits::expect_1)]
-fn c03_trap_input_eof() {
+fn c03_trap_getc_eof() {
     let mut s = any_state();
     let _ = any_input(0);
-    let is_in: bool = kani::any();
-    s.trap(if is_in { 0xF023 } else { 0xF020 });
-    assert!(false, "GETC/IN went on after end of input");
+    s.trap(0xF020);
+    assert!(false, "GETC went on after end of input");
+}}
+trap_attrs! {
+#[kani::stub(std::process::exit, crate::verif_h::exits::expect_1)]
+fn c03_trap_in_eof() {
+    let mut s = any_state();
+    let _ = any_input(0);
+    s.trap(0xF023);
+    assert!(false, "IN went on after end of input");
 }}
 
 trap_attrs! {
 #[kani::stub(std::process::exit, crate::verif_h::exits::never)]
-fn c03_trap_halt_putn() {
+fn c03_trap_halt() {
     let mut s = any_state();
-    let halt: bool = kani::any();
     let probe: u16 = kani::any();
     let pre = snap(&s);
     let pre_probe = s.mem[probe as usize];
-    s.trap(if halt { 0xF025 } else { 0xF026 });
+    s.trap(0xF025);
     let mut e = Effect { r: pre.r, pc: pre.pc, cc: pre.cc, write: None };
-    if halt {
-        e.pc = 0xFFFF;
-    } else {
-        // PUTN: R0 as a signed decimal, no padding
-        let v = pre.r[0];
-        let neg = v >= 0x8000;
-        let mag: u32 = if neg { 65536 - v as u32 } else { v as u32 };
-        let digits: usize = if mag >= 10000 { 5 } else if mag >= 1000 { 4 } else if mag >= 100 { 3 } else if mag >= 10 { 2 } else { 1 };
-        let total = digits + if neg { 1 } else { 0 };
-        assert!(capture::len() == total, "PUTN printed the wrong number of characters");
-        if neg {
-            assert!(capture::at(0) == '-' as u32);
-        }
-        assert!(capture::at(total - 1) == '0' as u32 + mag % 10, "PUTN last digit wrong");
-        let first = if neg { 1 } else { 0 };
-        let lead = match digits { 5 => mag / 10000, 4 => mag / 1000, 3 => mag / 100, 2 => mag / 10, _ => mag };
-        assert!(capture::at(first) == '0' as u32 + lead, "PUTN leading digit wrong");
-    }
+    e.pc = 0xFFFF;
     assert_effect(&s, &e, probe, pre_probe);
-    kani::cover!(!halt && pre.r[0] == 0x8000);
-    kani::cover!(halt);
+    assert!(capture::len() == 0, "HALT wrote to the program's output channel through Output::Normal");
+    kani::cover!(pre.pc == 0x3001);
+}}
+
+trap_attrs! {
+#[kani::stub(std::process::exit, crate::verif_h::exits::never)]
+fn c03_trap_putn() {
+    let mut s = any_state();
+    let probe: u16 = kani::any();
+    let pre = snap(&s);
+    let pre_probe = s.mem[probe as usize];
+    s.trap(0xF026);
+    // PUTN: R0 as a signed decimal, no padding
+    let v = pre.r[0];
+    let neg = v >= 0x8000;
+    let mag: u32 = if neg { 65536 - v as u32 } else { v as u32 };
+    let digits: usize = if mag >= 10000 { 5 } else if mag >= 1000 { 4 } else if mag >= 100 { 3 } else if mag >= 10 { 2 } else { 1 };
+    let total = digits + if neg { 1 } else { 0 };
+    assert!(capture::len() == total, "PUTN printed the wrong number of characters");
+    if neg {
+        assert!(capture::at(0) == '-' as u32);
+    }
+    assert!(capture::at(total - 1) == '0' as u32 + mag % 10, "PUTN last digit wrong");
+    let first = if neg { 1 } else { 0 };
+    let lead = match digits { 5 => mag / 10000, 4 => mag / 1000, 3 => mag / 100, 2 => mag / 10, _ => mag };
+    assert!(capture::at(first) == '0' as u32 + lead, "PUTN leading digit wrong");
+    assert_unchanged(&s, &pre, probe, pre_probe);
+    kani::cover!(pre.r[0] == 0x8000);
+    kani::cover!(pre.r[0] == 7);
 }}
 
 /// PUTS / PUTSP: characters up to the first zero (word resp. byte), string of at most 3 words that does not
@@ -568,8 +590,27 @@ fn c03_trap_putsp() {
     kani::cover!(n == 3);
 }}
 
-/// unknown trap vectors: exit(0xEE) with nothing executed
-trap_attrs! {
+/// unknown trap vectors: exit(0xEE) with nothing executed.  The vector is symbolic here by necessity, so every arm
+/// of trap() is feasible for the symbolic executor: printing and input are cut (reaching them is a violation).
+fn no_print(_this: &crate::output::Output, _args: core::fmt::Arguments) {
+    assert!(false, "unknown trap vector printed something");
+    kani::assume(false);
+}
+fn no_print_registers(_this: &crate::output::Output, _s: &RunState) {
+    assert!(false, "unknown trap vector printed the registers");
+    kani::assume(false);
+}
+fn no_input() -> char {
+    assert!(false, "unknown trap vector consumed input");
+    kani::assume(false);
+    ' '
+}
+#[kani::proof]
+#[kani::unwind(10)]
+#[kani::stub(alloc::fmt::format, stubs::fmt_format)]
+#[kani::stub(crate::runtime::read_char, no_input)]
+#[kani::stub(crate::output::Output::print_fmt, no_print)]
+#[kani::stub(crate::output::Output::print_registers, no_print_registers)]
 #[kani::stub(std::process::exit, crate::verif_h::exits::expect_ee)]
 fn c02_trap_unknown_vector() {
     let mut s = any_state();
@@ -579,7 +620,7 @@ fn c02_trap_unknown_vector() {
     kani::assume(v < 0x20 || v > 0x27);
     s.trap(instr);
     assert!(false, "unknown trap vector executed instead of stopping the machine");
-}}
+}
 
 /// REG: prints, changes nothing
 #[kani::proof]
